@@ -33,7 +33,7 @@ MANIFEST = {
 
 def inst(n):
     name = f"c17_uci_move_text_len{n}"
-    return name, f"#[kani::proof]\n#[kani::unwind(8)]\npub fn {name}() {{ c17::uci_move_text({n}); }}\n"
+    return name, f"#[kani::proof]\n#[kani::unwind(12)]\npub fn {name}() {{ c17::uci_move_text({n}); }}\n"
 
 
 def jobs(tier, seed):
